@@ -320,7 +320,8 @@ func (d Decimal) Mod(input Decimal) Decimal {
 
 // ToProtoDecimal returns the proto Decimal representation of decimal.
 func (d Decimal) ToProtoDecimal() *dtpb.Decimal {
-	return fhir.Decimal(decimal.Decimal(d).InexactFloat64())
+	// the element holds the decimal text: no detour through a float, which keeps about 17 digits
+	return &dtpb.Decimal{Value: decimal.Decimal(d).String()}
 }
 
 // Round rounds a Decimal at the provided precision.
